@@ -1088,7 +1088,7 @@ func c16Read(p *chk.Prog, r *chk.Report) {
 		}
 		// callers bind the parameter to a limited reader
 		if name != "readOpen" {
-			for _, cs := range p.CallSites(natPkg + "." + name) {
+			for _, cs := range p.CallSites(f.Name()) {
 				cf := cs.Fn
 				arg := cs.Call.Args[0]
 				okc := false
